@@ -454,6 +454,18 @@ impl<C: Suite> Model for MExchange<C> {
                     let d = Option::<Vec<u8>>::from(ct.decrypt(sk));
                     o.calls(2);
                     expect(o, key("library-opens"), v && d.as_ref() == Some(&msg), "valid and the message", format!("valid={} {:?}", v, d.map(|m| m.len())));
+                    if st.len <= 4 && st.e == 0 {
+                        // threshold opening of the reference-made ciphertext: an honest split, and a crafted sharing in
+                        // which two participants hold equal values
+                        use rand_core::SeedableRng;
+                        let honest = sk.split_with_rng(2, 3, rand_chacha::ChaCha20Rng::from_seed([18u8; 32])).unwrap();
+                        let crafted = shares_with_equal_values::<C>(sk, 4);
+                        for (what, set) in [("honest-2-of-3", vec![&honest[2], &honest[0]]), ("equal-valued-3-of-4", vec![&crafted[0], &crafted[1], &crafted[2]]), ("equal-valued-3-of-4-reordered", vec![&crafted[3], &crafted[1], &crafted[0]])] {
+                            let ds: Vec<SignDecryptionShare<C>> = set.iter().map(|x| ct.create_decryption_share(x).unwrap()).collect();
+                            let d = Option::<Vec<u8>>::from(ct.decrypt_with_shares(&ds));
+                            expect(o, key(&format!("library-opens-with-shares:{}", what)), d.as_ref() == Some(&msg), "the message", format!("{:?}", d.map(|m| m.len())));
+                        }
+                    }
                 }
             }
             Kind::TimeLock => {
